@@ -142,10 +142,19 @@ fn guest_templates() -> (Vec<Guest>, serde_json::Value) {
 }
 
 fn machine(code: &[u8], data_mask: u32, stack_mask: u32) -> Axecutor {
+    machine_filled(code, data_mask, stack_mask, None)
+}
+
+/// `fill`: Some(b) = every byte of the data area is b (value states in which an instruction's
+/// result equals what is already stored: the store is due all the same)
+fn machine_filled(code: &[u8], data_mask: u32, stack_mask: u32, fill: Option<u8>) -> Axecutor {
     let mut c = code.to_vec();
     c.extend_from_slice(&[0x90; 16]);
     let mut ax = Axecutor::new(&c, CODE_AT, CODE_AT).unwrap();
-    ax.mem_init_area(DATA, data_bytes()).unwrap();
+    ax.mem_init_area(DATA, match fill {
+        Some(b) => vec![b; data_bytes().len()],
+        None => data_bytes(),
+    }).unwrap();
     let mut st = data_bytes();
     // every stack slot holds a valid code address (for RET)
     for q in 0..(LEN / 8) as usize {
@@ -236,9 +245,26 @@ fn gen<'a>(guests: &'a [Guest], thorough: bool) -> impl Fn(&mut EnumCtx) + Sync 
                 matches!(crate::emu::step(&mut ax), StepOut::Ok(_))
             };
             let flag_states: &[u64] = if g.reads_flags { &[0, 0x8d5] } else { &[0] };
+            // registers that address memory keep their placement; in value states 1 and 2 every
+            // other register and the whole data area hold 0 / all ones, so that add, sub, or, xor,
+            // shifts (count 0), and-with-ones and plain stores would write back exactly what is
+            // there already - a store that changes nothing still needs W
+            let addr_regs: Vec<usize> = match crate::tmpl::decode_at(&g.bytes, CODE_AT) {
+                Some(d) => [d.instr.memory_base(), d.instr.memory_index()]
+                    .iter()
+                    .filter(|r| **r != iced_x86::Register::None && r.is_gpr())
+                    .map(|r| r.full_register().number())
+                    .chain(std::iter::once(4usize))
+                    .collect(),
+                None => vec![4],
+            };
             for mask in 0..8u32 {
                 for fl in flag_states {
+                for vs in 0..3usize {
                 for which in 0..2 {
+                    if vs != 0 && (which == 1 || g.need_data.map(|n| n & 2 == 0).unwrap_or(true)) {
+                        continue; // value states only matter for writes to the data operand
+                    }
                     // which 0: vary the data area; 1: vary the stack area
                     if which == 0 && g.need_data == Some(0) && g.path != "guest-no-access" {
                         continue;
@@ -255,17 +281,18 @@ fn gen<'a>(guests: &'a [Guest], thorough: bool) -> impl Fn(&mut EnumCtx) + Sync 
                     }
                     e.describe("guest", &format!("{} mask {} on {}", g.text, mask_name(mask), if which == 0 { "data" } else { "stack" }));
                     let (dm, sm) = if which == 0 { (mask, 3) } else { (3, mask) };
-                    let mut ax = machine(&g.bytes, dm, sm);
+                    let mut ax = machine_filled(&g.bytes, dm, sm, match vs { 0 => None, 1 => Some(0x00), _ => Some(0xFF) });
                     for k in 0..16 {
-                        ax.reg_write_64(crate::emu::GPR64[k], g.gpr[k]).unwrap();
+                        let v = if vs == 0 || addr_regs.contains(&k) { g.gpr[k] } else if vs == 1 { 0 } else { u64::MAX };
+                        ax.reg_write_64(crate::emu::GPR64[k], v).unwrap();
                     }
                     ax.verif_set_rflags(*fl);
                     let before = areas_hash(&ax);
                     let out = crate::emu::step(&mut ax);
                     let need = if which == 0 { g.need_data } else { g.need_stack };
                     let path = if which == 0 { g.path } else if g.need_stack == Some(2) { "stack-store" } else { "stack-load" };
-                    e.outcome(crate::common::fnv64(format!("{gi}/{mask}/{which}/{fl}/{}", out.class()).as_bytes()));
-                    e.state(20_000 + (gi as u64) * 64 + mask as u64 * 4 + which as u64 * 2 + (*fl != 0) as u64);
+                    e.outcome(crate::common::fnv64(format!("{gi}/{mask}/{which}/{fl}/{vs}/{}", out.class()).as_bytes()));
+                    e.state(20_000 + ((gi as u64) * 64 + mask as u64 * 4 + which as u64 * 2 + (*fl != 0) as u64) * 4 + vs as u64);
                     e.count("transitions", 1);
                     let w = || json!({"instruction": g.text, "bytes": crate::common::hex(&g.bytes), "mask": mask_name(mask), "area": if which == 0 { "data" } else { "stack" }});
                     match (need, out) {
@@ -284,6 +311,7 @@ fn gen<'a>(guests: &'a [Guest], thorough: bool) -> impl Fn(&mut EnumCtx) + Sync 
                         }
                         _ => {}
                     }
+                }
                 }
                 }
             }
